@@ -89,6 +89,8 @@ const ZERO_SIZED: &[(&str, &str, &[usize], usize)] = &[
     ("array of units", "pub fn main(x: [(); 3], y: u8) -> [(); 3] {\n  x\n}\n", &[0, 8], 0),
     ("index into empty array", "pub fn main(x: [u8; 0], i: usize) -> u8 {\n  x[i]\n}\n", &[0, 32], 8),
     ("for over empty array", "pub fn main(x: [u8; 0], y: u8) -> u8 {\n  let mut s = y;\n  for e in x {\n    s = s + e;\n  }\n  s\n}\n", &[0, 8], 8),
+    ("unit param between", "pub fn main(a: u8, n: (), b: u8) -> u8 {\n  a ^ b\n}\n", &[8, 0, 8], 8),
+    ("two leading zero-sized params", "pub fn main(x: (), z: [u8; 0], b: u8) -> u8 {\n  b\n}\n", &[0, 0, 8], 8),
     ("single array param 3", "pub fn main(x: [u16; 3]) -> u16 {\n  x[0]\n}\n", &[16, 16, 16], 16),
     ("single array of arrays", "pub fn main(x: [[u8; 2]; 2]) -> u8 {\n  x[1][0]\n}\n", &[16, 16], 8),
 ];
